@@ -46,9 +46,16 @@ fn pat(seed: u32, i: usize) -> u8 { (seed.wrapping_mul(31).wrapping_add(i as u32
 
 macro_rules! shape {
     ($name:ident, $size:literal, $align:literal) => {
-        #[derive(Clone, Copy, PartialEq)]
+        #[derive(Copy, PartialEq)]
         #[repr(C, align($align))]
         pub struct $name([u8; $size]);
+        /// `Copy`, with a HAND-WRITTEN `Clone` that does not return a bit copy (every byte inverted): a constructor documented
+        /// to copy (`T: Copy`: from_header_and_slice, From<&[T]>) or to move its input must not go through the user's `Clone`
+        /// — if it does, the contents read back are not the input's
+        impl Clone for $name {
+            #[allow(clippy::expl_impl_clone_on_copy)]
+            fn clone(&self) -> Self { let mut b = self.0; let mut i = 0; while i < $size { b[i] = !b[i]; i += 1; } $name(b) }
+        }
         impl Shape for $name {
             const NAME: &'static str = stringify!($name);
             fn make(seed: u32) -> Self { let mut b = [0u8; $size]; let mut i = 0; while i < $size { b[i] = pat(seed, i); i += 1; } $name(b) }
@@ -437,7 +444,7 @@ fn run_hs<H: Shape, T: Shape>(c: &Case, o: &mut Obs) {
     let mut cx = Cx::new();
     set_recording(true);
     let it = items::<T>(len, seed);
-    let itc = if c.ctor == "vec" { it.clone() } else { Vec::new() };
+    let itc: Vec<_> = if c.ctor == "vec" { it.iter().map(|x| *x).collect() } else { Vec::new() };
     lib_mark();
     let a: Arc<HeaderSlice<H, [T]>> = match c.ctor {
         "iter" => Arc::from_header_and_iter(H::make(seed), it.iter().copied()),
@@ -623,7 +630,7 @@ fn run_slice<T: Shape>(c: &Case, o: &mut Obs) {
     let mut cx = Cx::new();
     set_recording(true);
     let it = items::<T>(len, seed);
-    let itc = if c.ctor == "from_vec" { it.clone() } else { Vec::new() };
+    let itc: Vec<_> = if c.ctor == "from_vec" { it.iter().map(|x| *x).collect() } else { Vec::new() };
     lib_mark();
     let a: Arc<[T]> = match c.ctor {
         "from_ref" => Arc::from(&it[..]),
